@@ -3,6 +3,9 @@
 
 mode driver   the REAL cli.check_all (sequential loop / ProcessPoolExecutor + check_file_s) around a STUB check_file that sleeps
               and prints a token: which tokens come out, in which order, for which job count and completion order.
+mode cache    the REAL cli.check_all around a stub check_file that decodes texts through a REAL functools.lru_cache — keyed on all of its
+              inputs (`full`) or on less (`lossy`): what the cache model of Model/CliState.lean says about functools.lru_cache
+mode patch    a sequence of Checker.patch_environment() / Checker(...) calls in this fresh process: the once-flag
 mode inproc   the REAL cli.main() with check_all called several times in ONE process (phases): same relative paths with other
               contents (the phase changes the working directory), other orders, other job counts; optional line trace of lib/.
 """
@@ -41,6 +44,58 @@ def mode_driver(repo, plan):
             sys.stdout = old
         out.append({'lines': buf.getvalue().split('\n')[:-1] if buf.getvalue().endswith('\n') else buf.getvalue().split('\n'), 'error': err})
     return {'cases': out}
+
+def mode_cache(repo, plan):
+    cli = load_cli(repo)
+    import argparse, functools
+    state = {'cs': None, 'mode': 'full'}
+    @functools.lru_cache(maxsize=None)
+    def dec_full(text, cs):
+        return f'{cs}:{text}'
+    @functools.lru_cache(maxsize=None)
+    def dec_lossy(text):
+        return f"{state['cs']}:{text}"      # depends on something that is not in the key
+    def stub(path, *, options):
+        cs, texts = path.split('/')
+        state['cs'] = cs
+        for t in texts.split('+'):
+            print(dec_full(t, cs) if state['mode'] == 'full' else dec_lossy(t))
+    cli.check_file = stub
+    out = []
+    for case in plan['cases']:
+        dec_full.cache_clear()
+        dec_lossy.cache_clear()
+        state['mode'] = case['mode']
+        options = argparse.Namespace(jobs=case['jobs'], unpack_deb=False, ignore_tags=set(), fake_root=None, language=None, file_type=None, traceback=False)
+        buf = io.StringIO()
+        old = sys.stdout
+        sys.stdout = buf
+        err = None
+        try:
+            cli.check_all(list(case['specs']), options=options)
+        except BaseException as exc:
+            err = f'{type(exc).__name__}: {exc}'
+        finally:
+            sys.stdout = old
+        text = buf.getvalue()
+        out.append({'lines': text.split('\n')[:-1] if text.endswith('\n') else text.split('\n'), 'error': err})
+    return {'cases': out}
+
+def mode_patch(repo, plan):
+    cli = load_cli(repo)
+    import argparse
+    options = argparse.Namespace(jobs=1, unpack_deb=False, ignore_tags=set(), fake_root=None, language=None, file_type=None, traceback=False)
+    out = []
+    for op in plan['ops']:
+        try:
+            if op == 'p':
+                cli.Checker.patch_environment()
+            else:
+                cli.Checker('x.po', options=options)
+            out.append('ok')
+        except BaseException as exc:
+            out.append(type(exc).__name__)
+    return {'outcomes': out}
 
 def mode_inproc(repo, plan):
     cli = load_cli(repo)
@@ -95,7 +150,7 @@ def main():
     plan = json.load(sys.stdin)
     real_stdout = sys.stdout
     try:
-        res = mode_driver(repo, plan) if mode == 'driver' else mode_inproc(repo, plan)
+        res = {'driver': mode_driver, 'cache': mode_cache, 'patch': mode_patch, 'inproc': mode_inproc}[mode](repo, plan)
     except BaseException:
         res = {'fatal': traceback.format_exc()[-2000:]}
     real_stdout.write(json.dumps(res))
